@@ -366,35 +366,31 @@ fn build(cfg: &Cfg, ctx: &Arc<Ctx>) -> std::io::Result<Dispatcher> {
     b.build()
 }
 
-/// worker threads of this dispatcher that still exist (`/proc/self/task/*/comm`).
+/// worker threads of this dispatcher that are still running user code (`/proc/self/task/*/{comm,stat}`).
 ///
 /// `pthread_join` returns as soon as the kernel has cleared the thread's tid futex, a moment before the
-/// task disappears from /proc: entries in state Z/X do not count, and a live-looking entry is re-checked
-/// for up to 50 ms (a worker that is really still running stays).
+/// task disappears from /proc. A thread that has entered `do_exit` carries `PF_EXITING` (0x4) in the flags
+/// field of its stat line from the very beginning of its exit path (before the futex is cleared), so a joined
+/// thread is never counted, and a worker that has not finished always is.
 fn alive_workers(ctx: &Ctx) -> usize {
+    const PF_EXITING: u64 = 0x4;
     let prefix = ctx.prefix();
-    let scan = || {
-        let mut n = 0;
-        if let Ok(rd) = std::fs::read_dir("/proc/self/task") {
-            for e in rd.flatten() {
-                let Ok(comm) = std::fs::read_to_string(e.path().join("comm")) else { continue };
-                if !comm.trim_end().starts_with(&prefix) {
-                    continue;
-                }
-                let Ok(stat) = std::fs::read_to_string(e.path().join("stat")) else { continue };
-                let state = stat.rsplit_once(") ").and_then(|(_, r)| r.chars().next()).unwrap_or('?');
-                if state != 'Z' && state != 'X' {
-                    n += 1;
-                }
+    let mut n = 0;
+    if let Ok(rd) = std::fs::read_dir("/proc/self/task") {
+        for e in rd.flatten() {
+            let Ok(comm) = std::fs::read_to_string(e.path().join("comm")) else { continue };
+            if !comm.trim_end().starts_with(&prefix) {
+                continue;
+            }
+            let Ok(stat) = std::fs::read_to_string(e.path().join("stat")) else { continue };
+            let Some((_, rest)) = stat.rsplit_once(") ") else { continue };
+            let f: Vec<&str> = rest.split(' ').collect();
+            let state = f.first().and_then(|s| s.chars().next()).unwrap_or('?');
+            let flags: u64 = f.get(6).and_then(|x| x.parse().ok()).unwrap_or(0);
+            if state != 'Z' && state != 'X' && flags & PF_EXITING == 0 {
+                n += 1;
             }
         }
-        n
-    };
-    let mut n = scan();
-    let t0 = Instant::now();
-    while n != 0 && t0.elapsed() < Duration::from_millis(50) {
-        thread::sleep(Duration::from_micros(500));
-        n = scan();
     }
     n
 }
@@ -600,6 +596,19 @@ impl Det {
         }
         for (sig, detail) in self.ctx.problems.lock().unwrap().drain(..) {
             ex.fail(sig, detail);
+        }
+        // not a failure of C18 as stated ("joined first => cancellation"), but worth counting: concurrent
+        // mode, join returned, an accepted task was never started (more than 61 spawned tasks were waiting
+        // for their first poll when the worker left its loop)
+        if !self.ctx.sequential && self.joined.is_some() {
+            let n = self
+                .accepted
+                .iter()
+                .filter(|t| !self.specs[*t].1 && self.ctx.tasks[**t].started.load(Ordering::SeqCst) == 0)
+                .count();
+            if n > 0 {
+                ex.tag("det:dropped-unstarted-at-join");
+            }
         }
     }
 }
@@ -1274,9 +1283,27 @@ fn gen_det(rng: &mut Rng) -> Vec<String> {
     l
 }
 
-fn gen_conc(rt: &Runtime, rng: &mut Rng, big: bool) -> Vec<String> {
-    let (cfg, plan, join_at) = plan_conc(rng, big);
-    vec![run_conc(rt, &cfg, plan, join_at)]
+/// a burst of short tasks and an immediate join: more tasks than one executor tick polls (61). Sequential
+/// mode must run all of them; concurrent mode may drop the rest unstarted (counted as a tag).
+fn gen_burst(rng: &mut Rng) -> Vec<String> {
+    let w = rng.range(1, 2);
+    let conc = rng.chance(1, 2);
+    let mut l = vec![format!("cfg {w} {} cap={}", if conc { "c" } else { "s" }, rng.pick(&[16u32, 64]))];
+    let n = rng.range(62, 110) as usize;
+    for t in 1..=n {
+        let susp = if rng.chance(1, 8) { "y" } else { "-" };
+        l.push(format!("d {t} {susp} v{}", rng.below(1000)));
+    }
+    l.push("join".into());
+    if !conc {
+        for _ in 0..4 {
+            let t = rng.range(1, n as u64);
+            l.push(format!("rx {t}"));
+            l.push(format!("stat {t}"));
+        }
+    }
+    l.push("alive".into());
+    l
 }
 
 fn plan_conc(rng: &mut Rng, big: bool) -> (Cfg, Vec<Vec<PlanTask>>, JoinAt) {
@@ -1378,6 +1405,9 @@ fn main() {
             let mut cases = vec![];
             for i in 0..n_det {
                 cases.push(Case { name: format!("det/{i}"), lines: gen_det(rng) });
+            }
+            for i in 0..n_big {
+                cases.push(Case { name: format!("burst/{i}"), lines: gen_burst(rng) });
             }
             cases.extend(gen_conc_all(rng, n_conc, n_big));
             cases
